@@ -7,6 +7,9 @@ ops:
           "hdr": {...}, "cb": {...}, "parses": [parse_result..]}
   {"op": "build_cfg", "case": {...}, "workdir": dir}   same record, the image is made by BootImageV21.load_from_config from a
       configuration dictionary (the structure the BD / YAML front ends produce) derived from the case
+  {"op": "history", "case": {...}, "change": {"kind": "add_cmd"|"add_section"|"grow_load", ...}, "changed_case": {...}}
+      -> first export, second export of the same object (after update()), export after the change, export of a fresh
+         object built from changed_case, and parse(first).export()
   {"op": "cmd", "cmd": [...]}             -> {"export": [...], "obs": [...]}
   {"op": "parse_cmds", "data": hex}       -> ["ok", [obs..]] | ["e", k]
   {"op": "parse", "data": hex, "kek": hex}
@@ -318,6 +321,50 @@ def handler(payload):
                     kek = bytes.fromhex(p["kek"])
                     prs.append(res(guarded(lambda: parse(bytes(d), kek), seconds=60), lambda x: x))
                 rec["parses"] = prs
+            out.append(rec)
+        elif o == "history":
+            try:
+                provider(op["case"]["chain"])
+            except Exception as ex:  # noqa
+                out.append({"harness_error": f"signature provider: {type(ex).__name__}: {ex}"})
+                continue
+            rec = {}
+            hk = {}
+
+            def first():
+                hk["img"], d = build(op["case"])
+                return d
+            r1 = guarded(first, seconds=60)
+            rec["first"] = res(r1, lambda d: d.hex())
+            if r1[0] == "ok":
+                img = hk["img"]
+
+                def second():
+                    img.update()
+                    return img.export()
+                rec["second"] = res(guarded(second, seconds=60), lambda d: d.hex())
+
+                def reparse():
+                    p2 = BootImageV21.parse(r1[1], kek=bytes.fromhex(op["case"]["kek"]))
+                    p2.signature_provider = provider(op["case"]["chain"])
+                    return p2.export()
+                rec["reparse"] = res(guarded(reparse, seconds=60), lambda d: d.hex())
+                ch = op["change"]
+
+                def changed():
+                    if ch["kind"] == "add_cmd":
+                        img.boot_sections[ch["section"]].append(mk_cmd(ch["cmd"], C, ExtMemId, MemIdEnum))
+                    elif ch["kind"] == "add_section":
+                        s_ = ch["sec"]
+                        img.add_boot_section(BootSectionV2(s_["uid"], *[mk_cmd(c, C, ExtMemId, MemIdEnum) for c in s_["cmds"]],
+                                                           hmac_count=s_["hmac"], zero_filling=bool(s_.get("zero", 0))))
+                    elif ch["kind"] == "grow_load":
+                        cmd = img.boot_sections[ch["section"]][ch["index"]]
+                        cmd.data = bytes.fromhex(ch["data"])
+                    img.update()
+                    return img.export()
+                rec["changed"] = res(guarded(changed, seconds=60), lambda d: d.hex())
+                rec["fresh_changed"] = res(guarded(lambda: build(op["changed_case"])[1], seconds=60), lambda d: d.hex())
             out.append(rec)
         elif o == "cmd":
             keep = {}
